@@ -41,34 +41,44 @@ Fixpoint responses (evs : list h3ev) : list N :=
   end.
 
 (* The read side of the same stream, as StreamSource::read decides it once the QUIC socket has nothing buffered for the
-   stream (QuicSocket::read returned None). The source looks at three things:
-   [reset_seen]  the codec has handled the client's RESET_STREAM (h3::Event::Reset -> QuicSocketEvent::Close) and raised the flag
-                 it shares with the source;
+   stream (QuicSocket::read returned None). The source looks at four things:
+   [reset_seen]  the codec has handled the client's RESET_STREAM (QuicSocketEvent::Close) and raised the flag it shares with
+                 the source;
+   [q_reset]     the QUIC connection knows of a reset the codec has not handled: it lies unread in the stream (a finished stream
+                 that is still readable and whose read fails with StreamReset), or the socket remembers having read it
+                 (QuicSocket::reset_streams, filled under the lock of the connection, also by the poll that yields
+                 h3::Event::Reset; forgotten only after the codec has raised the flag);
    [q_finished]  quiche's stream_finished: true once the client's FIN has been read up to, and ALSO true for a stream that was
                  reset (RecvBuf::reset moves the read offset to the final size) or that has been collected;
    [registered]  the stream is still in the codec's table, i.e. the sender of the source's readable events lives.
    [checks_reset] = H3_SOURCE_RESET_IS_A_READ_FAILURE: the flag is looked at before stream_finished; otherwise (as found) it
-   did not exist and a reset handled while the source was not parked in recv() was read as the end of the upload. *)
-Record h3src := { reset_seen : bool; q_finished : bool; registered : bool }.
-Definition h3src_0 : h3src := {| reset_seen := false; q_finished := false; registered := true |}.
+   did not exist and a reset handled while the source was not parked in recv() was read as the end of the upload.
+   [asks_conn] = H3_SOURCE_ASKS_THE_CONNECTION: a finished stream is an end of the upload only if the connection does not know
+   of a reset (QuicSocket::stream_reset_by_peer); otherwise (as found) a reset the codec had not been told of - quiche's HTTP/3
+   layer says Data and then Finished, not Reset, for a stream reset while one of its DATA frames is being read - or had not yet
+   handled was read as the end of the upload. *)
+Record h3src := { reset_seen : bool; q_reset : bool; q_finished : bool; registered : bool }.
+Definition h3src_0 : h3src := {| reset_seen := false; q_reset := false; q_finished := false; registered := true |}.
 
 Inductive h3read :=
 | SrcEof        (* Ok(Data::Eof): the pipe passes an end of stream on to the destination and keeps the other direction *)
 | SrcErr        (* Err: the pipe fails and the tunnel is torn down *)
 | SrcWait.      (* parked in readable_event_rx.recv() *)
 
-Definition h3_read_empty (checks_reset : bool) (s : h3src) : h3read :=
+Definition h3_read_empty (checks_reset asks_conn : bool) (s : h3src) : h3read :=
   if checks_reset && reset_seen s then SrcErr
-  else if q_finished s then SrcEof
+  else if q_finished s then (if asks_conn && q_reset s then SrcErr else SrcEof)
   else if registered s then SrcWait
   else SrcErr.
 
-(* what the client's events do to what the source looks at (Respond does not concern the read side) *)
-Definition h3src_step (s : h3src) (e : h3ev) : h3src :=
+(* what the client's events do to what the source looks at (Respond does not concern the read side). [told]: by the time the
+   source reads, the codec has been told of the reset and has handled it (flag raised, stream shut down and forgotten, the
+   socket's note dropped); not [told]: it has not (yet, or - without the question to the connection in the Finished arm - ever) *)
+Definition h3src_step (told : bool) (s : h3src) (e : h3ev) : h3src :=
   match e with
-  | ClientFin => {| reset_seen := reset_seen s; q_finished := true; registered := registered s |}
-  | ClientReset => {| reset_seen := true; q_finished := true; registered := false |}
+  | ClientFin => {| reset_seen := reset_seen s; q_reset := q_reset s; q_finished := true; registered := registered s |}
+  | ClientReset => {| reset_seen := reset_seen s || told; q_reset := negb told; q_finished := true; registered := registered s && negb told |}
   | Respond _ => s
   end.
 
-Definition h3src_run (evs : list h3ev) : h3src := fold_left h3src_step evs h3src_0.
+Definition h3src_run (told : bool) (evs : list h3ev) : h3src := fold_left (h3src_step told) evs h3src_0.
